@@ -155,9 +155,12 @@ def gen_database(r, nasty=0.0, size=None, allow_props=None, renderers=(0, 1), db
                     subs.append((2, x))
                 else:
                     subs.append((0, r.choice(['raw_col', '(expr)'])))
-            ix = g.emit(Op(13, V('subjects', subs), g.ident(['idx', 'my index']) if r.random() < 0.4 else None,
-                           r.random() < 0.3, r.choice(INDEX_TYPES) if r.random() < 0.3 else None,
-                           r.random() < 0.2, g.note_arg(0.2), g.otext(0.2)))
+            ixop = Op(13, V('subjects', subs), g.ident(['idx', 'my index']) if r.random() < 0.4 else None,
+                      r.random() < 0.3, r.choice(INDEX_TYPES) if r.random() < 0.3 else None,
+                      r.random() < 0.2, g.note_arg(0.2), g.otext(0.2))
+            if any(repr(ixop) == repr(g.ops[j]) for j in idxs):
+                continue      # an index equal to an earlier one of the same table: delete_index(obj) would hit D23 (reported by C09)
+            ix = g.emit(ixop)
             g.emit(Op(52, t, ix))
             idxs.append(ix)
         info['indexes'][t] = idxs
